@@ -2,6 +2,7 @@
 package main
 
 import (
+	"time"
 	"encoding/json"
 	"flag"
 	"fmt"
@@ -23,6 +24,7 @@ func main() {
 	solver := flag.String("solver", "z3", "z3 | z3-new | cvc5")
 	timeoutMs := flag.Int("timeout-ms", 10000, "per-query solver timeout")
 	maxPaths := flag.Int("max-paths", 400000, "path cap per harness (hit = inconclusive)")
+	harnessBudget := flag.Int("harness-budget-s", 0, "wall-clock budget per harness in seconds (exceeded = inconclusive); 0 = none")
 	unwind := flag.Int("unwind", 64, "loop unwinding bound per frame")
 	maxThreads := flag.Int("max-threads", 40, "thread slots")
 	maxDepth := flag.Int("max-depth", 60, "call depth bound (recursion)")
@@ -47,6 +49,7 @@ func main() {
 	}
 	eng, loadT := loadEngine(*repo, overlay, "verif")
 	eng.workers, eng.solverKind, eng.timeoutMs, eng.maxPaths = *workers, *solver, *timeoutMs, *maxPaths
+	eng.harnessBudget = time.Duration(*harnessBudget) * time.Second
 	eng.unwind, eng.maxThreads, eng.maxDepth, eng.maxDecisions, eng.stepBudget, eng.seed = *unwind, *maxThreads, *maxDepth, *maxDec, *stepBudget, *seed
 	eng.raceFields = strings.Split(*raceFields, ",")
 
